@@ -15,6 +15,11 @@ fn main() {
     let env = Env::from_env();
     match args.get(1).map(|s| s.as_str()) {
         Some("smoke") => smoke(&env),
+        Some("C18-dump") => {
+            for s in c18::fixed_scenarios(simcore::rng::verif_seed()) {
+                println!("{} kind={} sub={} paging={} args={:?} stdin={} child_stdout={} child_stderr={}", s.name, s.kind, s.sub, s.paging, s.spec.args, s.spec.stdin.0.len(), s.spec.child.as_ref().map(|c| c.stdout.0.len()).unwrap_or(0), s.spec.child.as_ref().map(|c| c.stderr.0.len()).unwrap_or(0));
+            }
+        }
         Some("C10") | Some("C11") => {
             let tier = args.get(2).map(|s| s.as_str()).unwrap_or("quick");
             let replay = args.iter().position(|a| a == "--replay").and_then(|i| args.get(i + 1)).map(|s| s.as_str());
